@@ -118,6 +118,8 @@ def run_check(prop, rule_module, argv, level="other", explanation="", assumption
         "known_findings_hit": [f.key for f in viol if (prop, f.key) in known_keys],
         "notes": ctx.notes,
         "exhaustive": bool(getattr(rule_module, "EXHAUSTIVE", False)),
+        "checker_cmd": f"./check {prop} --tier {a.tier}",
+        "trusted_base": assumptions or getattr(rule_module, "ASSUMPTIONS", []),
         "facts_nonce": next(iter(ctx.crates.values())).nonce if ctx.crates else None,
     }
     evd = {"property_id": prop, "tier": a.tier, "seed": seed, "level": level, "coverage": cov,
